@@ -6,7 +6,7 @@ From TS Require Import Model.Lang.Swift Model.Lang.Python.
 From TS Require Proofs.C09Common Proofs.C09Recon Proofs.C09Refs Proofs.C09_KotlinFile Proofs.C09Witness Proofs.C09Final.
 From TS Require Proofs.C09_TypeScript Proofs.C09_Scala Proofs.C09_Python Proofs.C09_Swift Proofs.C09_Go Proofs.GoAcronyms Proofs.C09_GoAcr.
 From TS Require Import Model.Lang.Common Model.Collect Model.MultiFile Spec.C09MultiSpec.
-From TS Require Proofs.C14Front Proofs.C14Witness Proofs.C09Multi Proofs.C09MultiWitness.
+From TS Require Proofs.C14Front Proofs.C14Witness Proofs.C09Multi Proofs.C09MultiWitness Proofs.C09MultiTS.
 Import ListNotations.
 
 (* the program the back ends receive in single-file mode is Proofs.C09Recon.c09_reconciled of the parsed one *)
@@ -574,3 +574,37 @@ Theorem C09_multi_renamed_import_kotlin_pin :
   | Some t => contains_sub (lit "data class KPA2Renamed (") t | None => false end = true.
 Proof. exact Proofs.C09MultiWitness.renamed_import_kotlin_pin. Qed.
 Print Assumptions C09_multi_renamed_import_kotlin_pin.
+
+(* TypeScript in folder mode (no prefix), every workspace, every iteration order, every type-mapping configuration, EVERY
+   state the TypeScript value is in when crate b is reached (it only collects the types that need a reviver): the file
+   of crate b is header, import lines, one rendered declaration per item of the reconciled crate, trailer; every
+   struct / enum / alias among them is declared under the emitted name of a type of b (c9m_def_ok), and every name spelled
+   in a type position - member types (those of inlined struct variants included), variant payloads, alias targets, const
+   types, generic ids and arguments - stands for a mention in a source file of b and, outside the classes of c9m_known, is
+   spelled as the specification says (c9m_ref_ok with the empty prefix): a generic parameter of the owner verbatim, a
+   typeshared type - of b or of another crate - under the name the file of the crate it denotes defines it under.
+   (Names the type mappings replace are not names of the file: they are printed as raw text.) *)
+Theorem C09_multi_TypeScript :
+  forall (uc : unicode) (cfg : ts_config) (ho : list imported -> list imported) (arrivals : list (str * parsed)),
+    Proofs.C14Front.oracle_ok ho -> c9m_ids_wf arrivals = true ->
+    forall (b : str) (pd' : parsed), In (b, pd') (multi_crates ho arrivals) ->
+    forall (st : ts_state) (im : scoped) (text : str) (st' : ts_state),
+      ts_generate_multi uc cfg st im pd' = Ok (text, st') ->
+      exists ds : list ts_decl,
+        text = (ts_begin_file cfg ++ ts_write_imports im ++ List.concat (map ts_render_decl ds) ++ ts_end_file st')%list /\
+        Forall (fun d => (c09_is_def (ts_obs d) = true -> c9m_def_ok arrivals b [] (d_name (ts_obs d))) /\
+                         (forall r, In r (c09_decl_refs TypeScript (ts_obs d)) -> c9m_ref_ok arrivals b [] r)) ds.
+Proof. exact Proofs.C09MultiTS.c9m_ts_file. Qed.
+Print Assumptions C09_multi_TypeScript.
+
+(* the decision layer alone: one item of the reconciled crate, any printer state *)
+Theorem C09_multi_TypeScript_item :
+  forall (uc : unicode) (cfg : ts_config) (ho : list imported -> list imported) (arrivals : list (str * parsed)),
+    Proofs.C14Front.oracle_ok ho -> c9m_ids_wf arrivals = true ->
+    forall (b : str) (pd' : parsed), In (b, pd') (multi_crates ho arrivals) ->
+    forall (it' : ritem) (d : ts_decl) (s1 s2 : ts_state),
+      In it' (items_of pd') -> ts_decl_of uc cfg it' s1 = Ok (d, s2) ->
+      (c09_is_def (ts_obs d) = true -> c9m_def_ok arrivals b [] (d_name (ts_obs d))) /\
+      (forall r, In r (c09_decl_refs TypeScript (ts_obs d)) -> c9m_ref_ok arrivals b [] r).
+Proof. exact Proofs.C09MultiTS.c9m_ts_item. Qed.
+Print Assumptions C09_multi_TypeScript_item.
